@@ -84,3 +84,44 @@ Fixpoint show_chain_steps (w : jwrapper) (dims : list nat) :=
       end
   end.
 Definition show_chain (c : chain_case) := show_chain_steps (cc_w c) (cc_dims c).
+
+(** * image level: nested histories  split a -> split every piece along b -> merge b -> merge a *)
+Record nested_case := mk_nested_case {
+  nc_w : jwrapper; nc_a : nat; nc_b : nat;
+  nc_inner : list wobs;          (* every piece of the split along a, after its own round trip along b *)
+  nc_final : wobs;               (* the merge of those along a; [WErr] (with [nc_inner = []]) when anything raised *)
+  nc_untouched : bool }.
+
+Definition run_nested_inner (w : jwrapper) (a b : nat) : res (list jwrapper) :=
+  match split_w jv_eqb JNull w (Some a) with
+  | Ok ps => mapM (fun p => chain_step p b) ps
+  | Err e => Err e
+  end.
+
+Definition run_nested (w : jwrapper) (a b : nat) : res (list jwrapper * jwrapper) :=
+  match run_nested_inner w a b with
+  | Ok ps2 => match from_sequence_w jv_eqb JNull unit_exact ps2 (Some a) with
+              | Ok r => Ok (ps2, r)
+              | Err e => Err e
+              end
+  | Err e => Err e
+  end.
+
+Definition nested_dom (w : jwrapper) (a b : nat) : bool :=
+  chain_step_dom w a &&
+  match split_w jv_eqb JNull w (Some a) with
+  | Ok ps => forallb (fun p => chain_step_dom p b) ps
+  | Err _ => true
+  end.
+
+Definition check_nested (c : nested_case) : bool :=
+  nested_dom (nc_w c) (nc_a c) (nc_b c) &&
+  match run_nested (nc_w c) (nc_a c) (nc_b c), nc_final c with
+  | Ok (ps2, r), WOk _ _ _ _ _ => all2 w_matches ps2 (nc_inner c) && w_matches r (nc_final c)
+  | Err e, WErr e' => err_eqb e e'
+  | _, _ => false
+  end && nc_untouched c.
+
+Definition show_nested (c : nested_case) :=
+  (nested_dom (nc_w c) (nc_a c) (nc_b c),
+   rmap (fun pr => (map show_w (fst pr), show_w (snd pr))) (run_nested (nc_w c) (nc_a c) (nc_b c))).
